@@ -777,6 +777,10 @@ RU_TARGETS = ["index.html", "page/index.html", "module/m.html", "page/a/b/tuning
 RU_FORMS = [("<a href='{u}'>name</a>", "anchor"), ("{u}", "bare path"), ("<a href=\"{u}\" class=\"x\">name</a> trailing text", "anchor with text")]
 
 
+# how the project file spells output_dir (relative to the project file's directory <root>/proj); `link` is a symbolic link to <root>/proj/doc
+RU_OUTDIRS = ["./doc", "doc/", "../proj/doc", "sub/../doc", "link"]
+
+
 def _ru_expected(page, target):
     import os
     path, _, frag = target.partition("#")
@@ -785,33 +789,57 @@ def _ru_expected(page, target):
 
 
 def replay_relurl(w):
+    """the project settings are normalised by the real ProjectSettings.normalise_paths; links are built as the templates build them
+    (project_url + "/" + location) and converted by the real relative_url for a page under output_dir"""
+    import os
     import pathlib
     import re as _re
+    import shutil
+    import tempfile
     import ford.output as out
-    text = w["form"].replace("{u}", "/srv/out/" + w["target"])
-    got = out.relative_url(text, pathlib.Path("/srv/out/" + w["page"]))
+    from ford.settings import ProjectSettings
+
+    root = tempfile.mkdtemp(prefix="fvru-")
+    try:
+        os.makedirs(os.path.join(root, "proj", "doc"))
+        os.makedirs(os.path.join(root, "proj", "sub"))
+        os.symlink(os.path.join(root, "proj", "doc"), os.path.join(root, "proj", "link"))
+        st = ProjectSettings(output_dir=w.get("outdir", "./doc"))
+        st.normalise_paths(os.path.join(root, "proj"))
+        base = str(st.project_url)
+        text = w["form"].replace("{u}", base + "/" + w["target"])
+        got = out.relative_url(text, pathlib.Path(st.output_dir) / w["page"])
+    finally:
+        shutil.rmtree(root, ignore_errors=True)
     m = _re.search(r"""href=['"]([^'"]*)['"]""", str(got))
     href = m.group(1) if m else str(got).split()[0]
     want = _ru_expected(w["page"], w["target"])
-    return href != want, {"page": w["page"], "link target": w["target"], "form": w["form"], "relurl gives": str(got), "relative path from that page": want}
+    return href != want, {"page": w["page"], "link target": w["target"], "form": w["form"], "output_dir as written": w.get("outdir", "./doc"),
+                          "relurl gives": str(got).replace(root, "<root>"), "relative path from that page": want}
 
 
 @obligation("C09", "O7.relurl-from-every-depth", engine="SX(CV)", timeout=600)
 def relurl_depth(ctx):
     """relative_url (the `relurl` template filter) for a symbolic page (front page, entity page, list page, static pages nested 0-3 deep)
-    and a symbolic link into the output directory (page, fragment, media file; anchor / bare path): the result is the relative path
-    from that page"""
+    and a symbolic link into the output directory (page, fragment, media file; anchor / bare path), with output_dir written in a
+    symbolic spelling (./, trailing slash, `..` components, through a symbolic link): the result is the relative path from that page"""
     import ford.output as out
 
+    import ford.settings as fst
+    import ford.utils as fu
+
     ctx.encode_fn(out.relative_url)
-    ctx.bounds.update({"pages": RU_PAGES, "targets": RU_TARGETS, "forms": [f[1] for f in RU_FORMS]})
+    ctx.encode_fn(fst.ProjectSettings.normalise_paths)
+    ctx.encode_fn(fu.normalise_path)
+    ctx.bounds.update({"pages": RU_PAGES, "targets": RU_TARGETS, "forms": [f[1] for f in RU_FORMS], "output_dir spellings": RU_OUTDIRS})
     ctx.stubs.append("BeautifulSoup / pathlib need concrete text: one path per (page, target, form)")
 
     def h(E):
         pg = CV.choice(E, "page", RU_PAGES).concretize()
         tg = CV.choice(E, "target", RU_TARGETS).concretize()
         fm = CV.choice(E, "form", list(range(len(RU_FORMS)))).concretize()
-        snap = {"page": pg, "target": tg, "form": RU_FORMS[fm][0]}
+        od = CV.choice(E, "outdir", RU_OUTDIRS).concretize()
+        snap = {"page": pg, "target": tg, "form": RU_FORMS[fm][0], "outdir": od}
         E.e.snapshot = lambda m: dict(snap)
         from fv import patch as _p
         with _p.suspended():
